@@ -53,11 +53,11 @@ var spell = map[string][]string{
 	"num.traildotexp": {"5.e3", "0.E-1"},
 	"num.leaddotexp":  {".5e3", ".5E+1", ".0e-0"},
 	"num.hex":         {"0x1F", "0XaB", "0xdead_beef", "0x0"},
-	"num.hexn":        {"0x1Fn", "0XFFn"},
+	"num.hexn":        {"0x1Fn", "0XFFn", "0xA_Bn"},
 	"num.oct":         {"0o17", "0O7_7", "0o0"},
-	"num.octn":        {"0o7n"},
+	"num.octn":        {"0o7n", "0O1_7n"},
 	"num.bin":         {"0b101", "0B1_0", "0b0"},
-	"num.binn":        {"0b1n", "0B11n"},
+	"num.binn":        {"0b1n", "0B11n", "0b1_0n"},
 
 	"str.dq":         {`"a"`, `"a b"`, `"x;y"`},
 	"str.sq":         {`'a'`, `'a b'`},
@@ -101,11 +101,11 @@ var spell = map[string][]string{
 	"re.open.eq":          {"/="},
 	"re.plain":            {"a", "abc", "a+b?", `\d`, "(x|y)", "a{1,2}", "^$", ".", `\n`, "é", "x*", `\\`},
 	"re.escslash":         {`\/`},
-	"re.class.slash":      {"[/]", "[a/b]", "[^/]"},
+	"re.class.slash":      {"[/]", "[a/b]", "[^/]", "[[/]"},
 	"re.class.escbracket": {`[\]]`, `[\]/]`, `[a\]/b]`},
 	"re.class.plain":      {"[a-z]", "[^x]", "[[]", "[.]"},
 	"re.close":            {"/"},
-	"re.flags":            {"g", "gi", "dgimsuy", "v", "x1$"},
+	"re.flags":            {"g", "gi", "dgimsuy", "v", "x1$", "gé"},
 
 	"ws.sp": {" "}, "ws.tab": {"\t"}, "ws.vt": {"\v"}, "ws.ff": {"\f"}, "ws.nbsp": {"\u00A0"}, "ws.bom": {"\uFEFF"},
 	"ws.zs": {"\u1680", "\u2000", "\u2003", "\u200A", "\u202F", "\u205F", "\u3000"},
@@ -364,6 +364,7 @@ func Replay(args []string) {
 	out := fs.String("out", "", "trace file")
 	seed := fs.Int64("seed", 1, "seed")
 	variants := fs.Int("variants", 1, "spellings per case")
+	double := fs.String("double", "", "comma-separated plans whose cases are spelled once more")
 	mutevery := fs.Int("mutevery", 0, "mutate every n-th case (0: never)")
 	fs.Parse(args)
 	w := tr.NewWriter(*out)
@@ -374,10 +375,18 @@ func Replay(args []string) {
 		v interface{}
 	}
 	var samples []sample
+	more := map[string]bool{}
+	for _, p := range strings.Split(*double, ",") {
+		more[p] = true
+	}
 	readCases(*cases, &sum, func(c *scenario, h uint64) {
 		rng := caseRng(*seed, h)
 		var prev [][]byte
-		for v := 0; v < *variants; v++ {
+		nv := *variants
+		if more[c.Plan] {
+			nv++
+		}
+		for v := 0; v < nv; v++ {
 			input, e := concretise(c, rng)
 			dup := false
 			for _, p := range prev {
